@@ -12,6 +12,7 @@ TDo(ev) ==
     [] ev.e = "H"      -> CASE a[2] = 100 -> HLocked(a[1])
                             [] a[2] = 101 -> HUnlock(a[1])
                             [] a[2] \in {102, 103} -> HTable(a[1])
+                            [] a[2] = 104 -> UNCHANGED vars
 TraceNext ==
   /\ l <= Len(Tr) /\ l' = l + 1
   /\ IF Tr[l].e = "Reset"
